@@ -70,7 +70,7 @@ func byteSliceOrigins(c *core.Ctx, f *ssa.Function, memo map[*ssa.Function]map[s
 				break
 			}
 			if r, ok := root.(*ssa.Parameter); ok && f.Signature.Recv() != nil && r == f.Params[0] {
-				out["state:"+core.TypeLabel(r.Type())+"."+core.FieldOf(x).Name()] = true
+				out["state:"+core.TypeLabel(r.Type())+"."+core.FieldName(core.FieldOf(x))] = true
 			} else if _, ok := root.(*ssa.Alloc); ok {
 				out["fresh"] = true
 			} else if g, ok := root.(*ssa.Global); ok {
@@ -97,7 +97,7 @@ func byteSliceOrigins(c *core.Ctx, f *ssa.Function, memo map[*ssa.Function]map[s
 				switch r := root.(type) {
 				case *ssa.Parameter:
 					if f.Signature.Recv() != nil && r == f.Params[0] {
-						out["state:"+core.TypeLabel(r.Type())+"."+core.FieldOf(a).Name()] = true
+						out["state:"+core.TypeLabel(r.Type())+"."+core.FieldName(core.FieldOf(a))] = true
 					} else {
 						out["param"] = true
 					}
